@@ -20,6 +20,7 @@ RULE = (
     "has geometry, array[k] == that cell's label, default colour limits == (min, max) of the plotted "
     "labels, arrows at the face centres with that cell's components.  Non-trivial: datasets with a hole "
     "before the last cell; permuted dimensions."
+    ' Also: a vector component and a scalar taken from a second dataset on the same grid with other coordinate labels.'
 )
 LEVEL_TEXT = ("every dataset of the family list x every scalar / vector / override form of the stated menu: patch k, value k "
               "and arrow k compared with the k-th valid cell's reference polygon, label and centre")
